@@ -125,7 +125,10 @@ class LasWriter:
         if self.done:
             raise LaspyException("Cannot write points anymore")
 
-        if points.point_format != self.header.point_format:
+        if (
+            points.point_format != self.header.point_format
+            or points.point_size != self.header.point_format.size
+        ):
             raise LaspyException("Incompatible point formats")
 
         if self.header.max_point_count() - self.header.point_count < len(points):
